@@ -650,7 +650,7 @@ func RefCatalog(doc0 *Doc) (Unordered, error) {
 		for i, n := range names {
 			if v, ok := bindings[prefixes[i]]; ok {
 				kids = append(kids, rc.propNode(n, v))
-				if v.Kind == "ref" || v.Kind == "typed" {
+				if v.Kind == "ref" || v.Kind == "typed" || v.Kind == "orrule" {
 					used = append(used, v.Ref)
 				}
 			}
